@@ -20,7 +20,7 @@ RULE = ("npy input (files written by write_npy, 1-3 axes): first-chunk length en
         "(Builder::verif_build_from_reader) with first-chunk length exhaustive (small files) and later chunks random down "
         "to 1 byte: decoded sites must equal the whole-buffer run; failures injected at sampled offsets must not yield a "
         "successful run; the real binary fed through a pipe with a delayed, split first write. non-trivial = schedule with a "
-        "first chunk shorter than the format's magic/header; injected failures of every io::ErrorKind (UnexpectedEof included), also beyond the 64 KiB detection prefix; BGZF streams cut inside a block through the binary; sinks that are full (accept zero bytes) rather than failing, at every offset, npy and text")
+        "first chunk shorter than the format's magic/header; injected failures of every io::ErrorKind (UnexpectedEof included), also beyond the 64 KiB detection prefix; BGZF streams cut inside a block through the binary; sinks that are full (accept zero bytes) rather than failing, at every offset, npy and text; chunk schedules with the compression and / or the format preset by the caller")
 
 
 def fmt(l):
@@ -187,6 +187,13 @@ def check(rep, tier, seed):
         scheds += [[1] * L, [rng.randrange(1, 4) for _ in range(L)]]
         for sc in scheds:
             gcases.append("cgeno %s %s - %d" % (path, fmt(sc), rng.choice([1, 2, 4]))); gmeta.append((name, "schedule", sc[:1]))
+        # the same when the caller of the library SAYS what the stream holds (compression and / or format preset instead of
+        # detected): what is left to detection must still not depend on the first chunk
+        comp = "bgzf" if (name.startswith("vcf.gz") or name == "bcf") else "plain"
+        form = "bcf" if name.startswith("bcf") else "vcf"
+        for preset in (comp, form, comp + "+" + form):
+            for sc in [[]] + [[f] for f in list(firsts)[:40]] + [[1] * min(L, 400), [2, 1, 1, 3] * 30]:
+                gcases.append("cgeno %s %s - 1 %s" % (path, fmt(sc), preset)); gmeta.append((name, "schedule", sc[:1]))
         for f in sorted(set([0, 1, 2, 3, 10, 27, 28, 29, L - 1, L - 28, L - 29] + [rng.randrange(0, L) for _ in range(25)])):
             if 0 <= f < L:
                 gcases.append("cgeno %s %s %d 1" % (path, fmt(rng.choice([[], [7] * 50])), f)); gmeta.append((name, "fault", f))
